@@ -107,40 +107,66 @@ def check_kernels(pid, work, log):
                 stages.append((gfile, genfn, tie))
     if not stages:
         return res
-    files, names = [], []
-    for (gfile, genfn, tie) in stages:
-        try:
-            text = genfn(C.REPO)
-        except Exception as e:  # fail closed ...
-            # ... after a second reading: the same source with local aliases, extracted private helpers and
-            # `continue` guards undone (harness/pynorm.py); the tie lemmas must then close on that text
-            try:
-                from . import pynorm
-                with pynorm.second_reading():
-                    text = genfn(C.REPO)
-                res.setdefault("second_reading", []).append(f"{gfile}: {type(e).__name__}: {str(e)[:160]}")
-            except Exception:
-                res["obligations"] += 1
-                res["failed"].append(f"translator ({gfile}): {type(e).__name__}: {e}")
-                continue
-        open(os.path.join(gen, gfile), "w").write(text)
-        shutil.copy(os.path.join(C.COQ, "Gen", tie), os.path.join(gen, tie))
-        names += re.findall(r"Print Assumptions\s+([A-Za-z0-9_'.]+)\s*\.", strip_comments(open(os.path.join(gen, tie)).read()))
-        files.append((gfile, tie))
-    res["obligations"] += len(names)
-    res["theorems"] = names
-    files = [g for g, _ in files] + [t for _, t in files]
-    closed = 0
-    for f in files:
+    from . import pynorm
+
+    def coqc(f):
         p = subprocess.run(["coqc", "-Q", C.COQ, "Soc", "-Q", gen, "SocGen", "-w", "-notation-overridden",
                             os.path.join(gen, f)],
                            stdout=subprocess.PIPE, stderr=subprocess.STDOUT, timeout=600, cwd=gen, env=coq_env())
-        out = p.stdout.decode()
-        if p.returncode != 0:
+        return p.returncode, p.stdout.decode()
+
+    # Every stage gets up to two readings of the source.  The first is the text as written.  If the translator
+    # refuses it, or the tie lemmas do not re-prove on what it produced, the stage is run once more on the source
+    # with local aliases, extracted private helpers, named constants and `continue` guards undone
+    # (harness/pynorm.py); the same tie lemmas have to close on that text.  Only if both fail is the stage broken.
+    names = []
+    closed = 0
+    for (gfile, genfn, tie) in stages:
+        tnames = re.findall(r"Print Assumptions\s+([A-Za-z0-9_'.]+)\s*\.",
+                            strip_comments(open(os.path.join(C.COQ, "Gen", tie)).read()))
+        why, first_text, done = [], None, False
+        seen = set()
+        for reading in range(0, pynorm.LEVELS + 1):
+            try:
+                if reading == 0:
+                    text = genfn(C.REPO)
+                else:
+                    with pynorm.second_reading(reading):
+                        text = genfn(C.REPO)
+            except Exception as e:  # fail closed
+                why.append(f"translator ({gfile}): {type(e).__name__}: {e}")
+                continue
+            if text in seen:
+                continue
+            seen.add(text)
+            open(os.path.join(gen, gfile), "w").write(text)
+            shutil.copy(os.path.join(C.COQ, "Gen", tie), os.path.join(gen, tie))
+            rc, out = coqc(gfile)
+            if rc == 0:
+                rc, out = coqc(tie)
+                n = out.count("Closed under the global context")
+                if rc == 0 and n == len(tnames):
+                    closed += n
+                    done = True
+                    if reading > 0:
+                        res.setdefault("second_reading", []).append(f"{gfile}: " + "; ".join(w[:160] for w in why))
+                    break
+                f = tie
+            else:
+                f = gfile
             log.append(out[-3000:])
-            res["failed"].append(f"Gen/{f}: {out.strip().splitlines()[-1] if out.strip() else 'failed'}")
-            continue
-        closed += out.count("Closed under the global context")
+            why.append(f"Gen/{f}: {out.strip().splitlines()[-1] if out.strip() else 'failed'}")
+        if done:
+            names += tnames
+            res["obligations"] += len(tnames)
+        elif any(w.startswith("translator") for w in why[:1]):
+            res["obligations"] += 1
+            res["failed"].append(why[0])
+        else:
+            names += tnames
+            res["obligations"] += len(tnames)
+            res["failed"].append(why[0] if why else f"Gen/{tie}: failed")
+    res["theorems"] = names
     res["discharged"] = closed
     if res["discharged"] != res["obligations"]:
         res["failed"].append(f"Gen tie lemmas: {res['discharged']} closed of {res['obligations']}")
@@ -472,6 +498,7 @@ def main(argv):
                 "correspondence harness (generators, Amaranth 0.5.10 simulator / real API objects, comparators)",
             ],
             "coqchk": chk,
+            "tie_second_reading": ker.get("second_reading", []),
             "evaluations": evals, "distinct_nontrivial": dn,
             "rule": " | ".join(f"{e}: {s['rule'].strip()}" for e, s in stats.items()),
             "samples": [x for s in stats.values() for x in s["samples"]][:4],
@@ -491,6 +518,8 @@ def main(argv):
         sys.stderr.write("\n".join(log)[-6000:] + "\n")
     for l in known_lines:
         print(l)
+    for w in ker.get("second_reading", []):
+        print(f"note: translator stage re-read with aliases / helpers / constants undone (harness/pynorm.py): {w[:200]}")
     print(f"{pid} {tier}: theorems {discharged}/{obligations} closed; "
           f"{evals} cases ({dn} distinct non-trivial), {len(all_mis)} mismatches, {len(all_br)} oracle breaches; {wall:.1f}s")
     for path, suffix in violations:
